@@ -597,3 +597,17 @@ Qed.
 Corollary compact_as_negative_shapes f :
   match fi_path f with TPrim _ => True | _ => could_derive_as_compact (CUnnamed [f]) = false end.
 Proof. cbn. destruct (fi_path f); auto. Qed.
+
+(** the CompactAs clause of [generate_derives_exact], read off the generated item *)
+Theorem item_compactable_iff ir :
+  item_compactable ir = true <->
+  exists c f, ti_kind ir = KStruct c /\
+              (ci_kind c = CUnnamed [f] \/ exists n, ci_kind c = CNamed [(n, f)]) /\
+              exists p, fi_path f = TPrim p /\ In p [PU8; PU16; PU32; PU64; PU128].
+Proof.
+  unfold item_compactable. destruct (ti_kind ir) as [c|name docs vs].
+  - rewrite compact_as_iff. split.
+    + intros (f & Hk & Hp). exists c, f. auto.
+    + intros (c' & f & E & Hk & Hp). inversion E; subst c'. exists f. auto.
+  - split; [discriminate|]. intros (c & f & E & _). discriminate.
+Qed.
